@@ -172,3 +172,20 @@ Theorem C10_clone_returns : forall D K m (h : JS.heap.Clone.heap D K) a t,
   JS.heap.Clone.abs D K m h a = Some t -> exists h' a', JS.heap.Clone.clone D K m h a = Some (h', a').
 Proof. exact JS.heap.Clone.clone_total. Qed.
 Print Assumptions C10_clone_returns.
+
+(** cycles: an object that reaches itself through one of its children is never accepted,
+    whatever the recursion budget and the set of objects seen so far *)
+Theorem C10_structure_rejects_cycle : forall D K n (h : JS.heap.Clone.heap D K) seen a nd k c,
+  nth_error h a = Some nd -> In (k, c) (JS.heap.Clone.hn_kids D K nd) -> JS.heap.Clone.reach D K h c a ->
+  JS.heap.Clone.check D K n h seen a = None.
+Proof. exact JS.heap.Clone.check_rejects_cycle. Qed.
+Print Assumptions C10_structure_rejects_cycle.
+
+Example C10_structure_cycle_example :
+  (* 0 -> 1 -> 0 *)
+  let h := [JS.heap.Clone.mkNode nat nat 0%nat [(0%nat, 1%nat)]; JS.heap.Clone.mkNode nat nat 1%nat [(0%nat, 0%nat)]] in
+  JS.heap.Clone.check nat nat 10%nat h [] 0%nat = None /\ JS.heap.Clone.reach nat nat h 1%nat 0%nat.
+Proof.
+  split; [vm_compute; reflexivity|].
+  eapply JS.heap.Clone.reach_step; [reflexivity|left; reflexivity|apply JS.heap.Clone.reach_refl].
+Qed.
